@@ -11,6 +11,12 @@ CLAIMED = {
  "C05": dict(text="Coq theorem by induction over all trees of n!, C(n,k), integers, * / (any nesting) and + - comparisons / numeric functions at the boundary: resolving the lazy evaluation equals eager big-integer/rational evaluation, value or error (C05_value), built from proved lemmas for IntRange.difference (all overlap cases), the cancellation loop of Combinatoric.mul (value preserved, terminates within the computed fuel), resolve(), the zero-factor rule, and C(n,k) = Pascal binomial. Correspondence: exhaustive range pairs (endpoints 1..7), atom products/quotients and seeded random trees through execute(), also tagged with a unit, inside an array and via a variable.",
              note="Trusted: Coq kernel; Python int/Fraction arithmetic modelled via Num.v; ranges assumed zero-free (proved to be an invariant of every value the evaluator builds); harness generators.",
              technique="Coq proof (induction over trees; loop invariants for the cancellation and resolve loops; termination measure) + kernel-lane differential correspondence", ref="6/C05"),
+ "C03": dict(text="Coq theorems by induction over all quantity expression trees (tagging, + - * /, six comparisons, `to`, unary minus; compound signatures with negative exponents and `|`): every value has exactly the dimension computed from the units' dimension vectors, dimension mismatches never yield a value, a plain number is the zero dimension on either side, the dimension is independent of multiples/offsets/prefixes/spellings, and compose_units computes sum e_i dim(u_i) - sum f_j dim(v_j). Correspondence: trees over thousands of live-resolved unit spellings through execute() vs qeval in the Coq VM, plus the dimension oracle directly on the implementation.",
+             note="Trusted: Coq kernel; units reach the model already resolved by the live lookup_unit (name lookup is C13); Python numeric arithmetic modelled via Num.v.",
+             technique="Coq proof (structural induction over expression trees; zip-semantics vector algebra) + kernel-lane differential correspondence", ref="6/C03"),
+ "C04": dict(text="Coq theorem by induction over all quantity trees whose unit factors/offsets are int/Fraction (an int factor other than 1 under a non-negative exponent): the delivered magnitude is exactly the rational value of ordinary arithmetic on base-unit values, operands in written order, as an int or reduced fraction (C04_exact, C04_integral_as_int); the stated consequences (x U to U, round trip, halving, distribution over + and scaling, affine offset units) proved on the specification. Float-factor units: partial — the model carries the ideal rational value and the implementation is compared within 1e-9 (C04_float_partial is correspondence only).",
+             note="Trusted: Coq kernel; resolved units from the live registry; float rounding is not modelled (ideal rationals, tolerance 1e-9).",
+             technique="Coq proof (induction over trees, exact rational arithmetic) + kernel-lane differential correspondence (exact lane and 1e-9 float lane)", ref="6/C04"),
 }
 PENDING = {}
 ALL = ["C%02d" % i for i in range(1, 21)]
